@@ -1,16 +1,22 @@
 package gabikeys
 
 import (
+	"crypto/rand"
+	"errors"
+	"io"
 	"sync"
 	"time"
 
 	"github.com/privacybydesign/gabi/big"
+	"github.com/privacybydesign/gabi/safeprime"
 )
 
 func init() {
 	vpHarnesses["vpC16_O1"] = vpC16_O1
 	vpHarnesses["vpC16_O2"] = vpC16_O2
 	vpHarnesses["vpC16_O3"] = vpC16_O3
+	vpHarnesses["vpC16_O4"] = vpC16_O4
+	vpHarnesses["vpC16_O5"] = vpC16_O5
 }
 
 func vpToyParams(ln uint) *SystemParameters {
@@ -96,4 +102,49 @@ func vpC16_O3() {
 		vpAssert("concurrently generated p and q differ modulo 8", vpMod8(p) != vpMod8(q))
 		vpAssert("concurrently generated: neither (p-1)/2 nor (q-1)/2 is 1 modulo 8", vpMod8(pp) != 1 && vpMod8(qp) != 1)
 	}
+}
+
+// C16-O4: the worker pool of safeprime.GenerateConcurrent (its real code; the
+// single-prime generator is a stub, two workers). The consumer takes 1..3
+// safe primes and then closes the stop channel, as generateSafePrimePair does.
+// Under every schedule (bounded preemptions) nothing panics and every goroutine
+// the pool started returns: no worker is left behind.
+func vpC16_O4() { vpC16WorkerPool() }
+
+type vpFailingReader struct{}
+
+func (vpFailingReader) Read([]byte) (int, error) { return 0, errors.New("entropy source failed") }
+
+// C16-O5: the same worker pool when the randomness source fails (symbolically:
+// any of the single-prime generations may return an error; natively: crypto/rand.Reader
+// fails). The failure is reported on the error channel, nothing panics and
+// every goroutine of the pool returns.
+func vpC16_O5() {
+	if vpNative() {
+		var old io.Reader
+		old, rand.Reader = rand.Reader, vpFailingReader{}
+		defer func() { rand.Reader = old }()
+	}
+	vpC16WorkerPool()
+}
+
+func vpC16WorkerPool() {
+	base := vpGoroutines()
+	stop := make(chan struct{})
+	ints, errs := safeprime.GenerateConcurrent(32, stop)
+	k := 1 + vpChoose("consumed", 3)
+	failed := false
+	for i := 0; i < k && !failed; i++ {
+		select {
+		case p := <-ints:
+			vpAssert("the pool delivers safe primes", p != nil && p.BitLen() == 32)
+		case err := <-errs:
+			vpAssert("a reported failure carries an error", err != nil)
+			failed = true
+		}
+	}
+	vpSleepNative(30) // natively: give the workers time to fill the channel, as a slow consumer would
+	close(stop)
+	left := vpQuiesce(base)
+	vpAssert("no safe-prime worker is left behind after stop", left == 0)
 }
